@@ -196,6 +196,18 @@ def _build(fmt, rs, A, dt, rdt, kind):
                        lambda: L["tucker_to_tensor"](obj, skip_factor=skip),
                        lambda m: L["tucker_to_unfolded"](obj, m, skip_factor=skip),
                        lambda: L["tucker_to_vec"](obj, skip_factor=skip))
+            # the same tensor written with (conjugate-)transposed factors
+            ctx.count("clause/transpose_factors")
+            objT = (core, [np.conj(f).T.copy() for f in factors])
+            _views(ctx, "tucker", be, dict(desc, cls="transpose_factors"), dense, absb, nt, eps,
+                   lambda: L["tucker_to_tensor"](objT, transpose_factors=True),
+                   lambda m: L["tucker_to_unfolded"](objT, m, transpose_factors=True),
+                   lambda: L["tucker_to_vec"](objT, transpose_factors=True))
+            if skip is not None:
+                _views(ctx, "tucker", be, dict(desc, cls="skip_factor+transpose_factors"), sv, sa, snt, eps,
+                       lambda: L["tucker_to_tensor"](objT, skip_factor=skip, transpose_factors=True),
+                       lambda m: L["tucker_to_unfolded"](objT, m, skip_factor=skip, transpose_factors=True),
+                       lambda: L["tucker_to_vec"](objT, skip_factor=skip, transpose_factors=True))
         return {"desc": desc, "check": check, "nontrivial": prod(rk) > 1 or sum(s > 1 for s in shp) > 1}
 
     if fmt in ("tt", "tr"):
